@@ -63,11 +63,26 @@ pub enum ModSpec {
     /// HoldOff + Invert together (+ Random with the seed): the game marks them incompatible, the library applies them
     /// in a fixed order, which every path must share
     HoIn(Option<f64>),
+    /// lazer DifficultyAdjust (ar, cs, hp, od) next to the lazer forms of the given legacy bits (e.g. HR)
+    DaPlus(u32, Option<f64>, Option<f64>, Option<f64>, Option<f64>),
     /// mode-less (intermode) mods given by their acronyms and handed over *by reference* (`&GameModsIntermode`)
     IntermodeRef(&'static str),
 }
 
 impl ModSpec {
+    /// The lazer mods of a spec that is made of lazer mods (empty for bit / intermode specs).
+    pub fn lazer_list(&self, mode: GameMode) -> Vec<GameMod> {
+        match self {
+            ModSpec::Da(ar, cs, hp, od) => vec![match mode {
+                GameMode::Osu => GameMod::DifficultyAdjustOsu(DifficultyAdjustOsu { approach_rate: *ar, circle_size: *cs, drain_rate: *hp, overall_difficulty: *od, ..Default::default() }),
+                GameMode::Taiko => GameMod::DifficultyAdjustTaiko(DifficultyAdjustTaiko { drain_rate: *hp, overall_difficulty: *od, ..Default::default() }),
+                GameMode::Catch => GameMod::DifficultyAdjustCatch(DifficultyAdjustCatch { approach_rate: *ar, circle_size: *cs, drain_rate: *hp, overall_difficulty: *od, ..Default::default() }),
+                GameMode::Mania => GameMod::DifficultyAdjustMania(DifficultyAdjustMania { drain_rate: *hp, overall_difficulty: *od, ..Default::default() }),
+            }],
+            _ => Vec::new(),
+        }
+    }
+
     /// Whether the mod set contains the given acronym (only meaningful for `IntermodeRef`).
     pub fn has_acronym(&self, a: &str) -> bool {
         matches!(self, ModSpec::IntermodeRef(s) if s.as_bytes().chunks(2).any(|c| c == a.as_bytes()))
@@ -124,6 +139,20 @@ impl ModSpec {
                 if seed.is_some() {
                     l.insert(GameMod::RandomMania(RandomMania { seed: *seed }));
                 }
+            }
+            ModSpec::DaPlus(bits, ar, cs, hp, od) => {
+                use rosu_pp::model::mods::rosu_mods::{GameMode as MM, GameModsIntermode};
+                let mm = match mode {
+                    GameMode::Osu => MM::Osu,
+                    GameMode::Taiko => MM::Taiko,
+                    GameMode::Catch => MM::Catch,
+                    GameMode::Mania => MM::Mania,
+                };
+                let mut with_bits = GameModsIntermode::from_bits(*bits).try_with_mode(mm).unwrap_or_default();
+                for gm in ModSpec::Da(*ar, *cs, *hp, *od).lazer_list(mode) {
+                    with_bits.insert(gm);
+                }
+                return GameMods::from(with_bits);
             }
             ModSpec::Da(ar, cs, hp, od) => {
                 let m = match mode {
